@@ -14,3 +14,30 @@ Proof.
                       (map fst prim_aliases ++ prim_names) = true) by (vm_compute; reflexivity).
   rewrite forallb_forall in H. apply Nat.eqb_eq. apply H. exact Hx.
 Qed.
+
+(* the alias table of docs/*/language.md ("Alias of ...") *)
+Definition doc_aliases : list (string * prim) :=
+  [("byte", PUint8); ("int", PInt32); ("uint", PUint32); ("long", PInt64); ("ulong", PUint64);
+   ("float", PFloat32); ("double", PFloat64); ("complexfloat", PCFloat32); ("complexdouble", PCFloat64)].
+
+Definition prim_eq (a b : prim) : bool :=
+  match a, b with
+  | PBool, PBool | PInt8, PInt8 | PUint8, PUint8 | PInt16, PInt16 | PUint16, PUint16 | PInt32, PInt32 | PUint32, PUint32
+  | PInt64, PInt64 | PUint64, PUint64 | PSize, PSize | PFloat32, PFloat32 | PFloat64, PFloat64 | PCFloat32, PCFloat32
+  | PCFloat64, PCFloat64 | PString, PString | PDate, PDate | PTime, PTime | PDateTime, PDateTime => true
+  | _, _ => false
+  end.
+
+Fixpoint lookup_alias (l : list (string * prim)) (n : string) : option prim :=
+  match l with
+  | [] => None
+  | (a, p) :: r => if String.eqb a n then Some p else lookup_alias r n
+  end.
+
+Definition same_alias_table (a b : list (string * prim)) : bool :=
+  forallb (fun x => match lookup_alias b (fst x) with Some p => prim_eq p (snd x) | None => false end) a &&
+  forallb (fun x => match lookup_alias a (fst x) with Some p => prim_eq p (snd x) | None => false end) b.
+
+(* what the current front end resolves each alias name to (Gen/Tables.v, observed on every run) is what the documentation says *)
+Theorem observed_aliases_are_documented : same_alias_table prim_aliases doc_aliases = true.
+Proof. vm_compute. reflexivity. Qed.
